@@ -770,8 +770,8 @@ func runTask(t task, root string, yield bool) (out []string) {
 const exitDidNotReturn = 77
 
 // perCallSeq: running maximum of the observed sequential time per call; the deadline of a phase is
-// 10 x (calls x perCallSeq), at least 20 s
-var perCallSeq = 200 * time.Millisecond
+// 10 x (calls x perCallSeq), at least 20 s and at most 90 s
+var perCallSeq = 30 * time.Millisecond
 
 // emit is set by main: what to do with a batch result that has to be written before the process ends
 var emit = func(batchResult) {}
@@ -780,6 +780,9 @@ func phaseDeadline(calls int) time.Duration {
 	d := 10 * time.Duration(calls) * perCallSeq
 	if d < 20*time.Second {
 		d = 20 * time.Second
+	}
+	if d > 90*time.Second {
+		d = 90 * time.Second
 	}
 	return d
 }
